@@ -15,7 +15,7 @@ func init() {
 		ID: "C18",
 		Explanation: "Decides structural necessary conditions of C18: (R-C18-1) encoding agreement at every hop: PutRequest.Value and SecretValue.Value are []byte (base64 in JSON) with the documented wire signatures, the stored form uses one standard base64 on both sides (R-C03-4), cache and file client agree (R-C13-4); " +
 			"(R-C18-2) transformer allow-list on the value path: following secret bytes from the request through the store and back out (db, server, client library), the only operations applied to them are []byte/string conversions, copies, json Marshal/Unmarshal, standard base64, Encrypt/Decrypt, readers; any other callee that takes the bytes and yields bytes or text (TrimSpace, ToValidUTF8, strings.*), any re-slicing with bounds and any concatenation is reported; " +
-			"(R-C18-4) bytes held by the Store (current or superseded) are never overwritten in place, so a value once served stays byte-identical; (R-C18-3) CLI policy of `setec put`: every path to the Put request passes the false edge of (len(value) == 0 && !EmptyOK) for the value sent; on the file and pipe branches the value sent is checkPutText applied to exactly the bytes read; checkPutText returns its input for invalid UTF-8, for text without surrounding whitespace, and under --verbatim (tested before --trim-space), the trimmed text only under --trim-space, and otherwise an error, on which put returns before contacting the server. (R-C18-6) a lookup returns the handle of the name asked for: the single-flight key is per name (C16's R-C16-2).",
+			"(R-C18-4) bytes held by the Store (current or superseded) are never overwritten in place, so a value once served stays byte-identical; (R-C18-3) CLI policy of `setec put`: every path to the Put request passes the false edge of (len(value) == 0 && !EmptyOK) for the value sent; on the file and pipe branches the value sent is checkPutText applied to exactly the bytes read; checkPutText returns its input for invalid UTF-8, for text without surrounding whitespace, and under --verbatim (tested before --trim-space), the trimmed text only under --trim-space, and otherwise an error, on which put returns before contacting the server. (R-C18-6) a lookup returns the handle of the name asked for: the single-flight key is per name (C16's R-C16-2). (R-C18-3, extended) the put command sends no request other than Put (a refused put contacts nothing).",
 		NotDecided:  "Equality for all byte strings (depends on encoding/json, base64 and the AEAD: trusted); the interactive terminal branch's confirmation dialogue.",
 		Trusted:     append([]string{"encoding/json round-trips []byte through base64", "bytes.TrimSpace removes only leading/trailing white space"}, commonTrusted...),
 		Assumptions: []string{},
@@ -326,6 +326,20 @@ func c18CLI(c *eng.Ctx) {
 		c.Undecided("R-C18-3", runPut, runPut.Pos(), "Put request in runPut", "not found")
 		return
 	}
+	// "refused without contacting the server": the put command talks to the
+	// service through its Put request only -- no probe, pre-check or lookup
+	// goes out before (or instead of) it
+	eng.InstrsDeep(runPut, func(g *ssa.Function, in ssa.Instruction) {
+		ci, ok := in.(ssa.CallInstruction)
+		if !ok {
+			return
+		}
+		cal := eng.Callee(ci.Common())
+		if cal == nil || cal.Signature.Recv() == nil || !eng.IsNamed(cal.Signature.Recv().Type(), setecPkg, "Client") {
+			return
+		}
+		c.Check(cal.Name() == "Put", "R-C18-3", g, in.Pos(), "request sent by `setec put`: "+eng.CallStr(ci.Common()), "the only request of the put command is Put, issued after the value was read and accepted (a refused put contacts nothing)", "another request: "+cal.Name())
+	})
 	nilErrReturn := func(x ssa.Instruction) bool {
 		r, isR := x.(*ssa.Return)
 		if !isR {
@@ -356,13 +370,30 @@ func c18CLI(c *eng.Ctx) {
 	}
 	nChecked := 0
 	// emptyReach: assuming len(val) == 0 and !EmptyOK, is a target reachable from start in fn?
-	emptyReach := func(fn *ssa.Function, start ssa.Instruction, val ssa.Value, target func(ssa.Instruction) bool) (ssa.Instruction, []*ssa.BasicBlock) {
+	var emptyReach func(fn *ssa.Function, start ssa.Instruction, val ssa.Value, target func(ssa.Instruction) bool) (ssa.Instruction, []*ssa.BasicBlock)
+	emptyReach = func(fn *ssa.Function, start ssa.Instruction, val ssa.Value, target func(ssa.Instruction) bool) (ssa.Instruction, []*ssa.BasicBlock) {
 		assume := func(b *ssa.BasicBlock, i int) bool {
 			ifi, ok := b.Instrs[len(b.Instrs)-1].(*ssa.If)
 			if !ok {
 				return true
 			}
 			cond := eng.CondOf(ifi.Cond, i == 0)
+			// the test may sit in a helper handed the value: its nil-error edge
+			// is closed if, under the same assumption, the helper cannot
+			// return a nil error
+			if ev, isNil, isE := cond.ErrCheck(); isE && isNil {
+				if hc, _ := eng.TupleCall(ev); hc != nil {
+					if h := eng.Callee(&hc.Call); eng.IsHelper(fn, h) && len(hc.Call.Args) == len(h.Params) {
+						for ai, a := range hc.Call.Args {
+							if eng.Origin(a) == eng.Origin(val) {
+								if hit, _ := emptyReach(h, nil, h.Params[ai], nilErrReturn); hit == nil {
+									return false
+								}
+							}
+						}
+					}
+				}
+			}
 			if op, x, y, isCmp := cond.Cmp(); isCmp {
 				if k, isK := eng.ConstInt(y); isK && k == 0 {
 					if args, isLen := eng.BuiltinCall(instrOf(eng.Origin(x)), "len"); isLen && eng.Origin(args[0]) == eng.Origin(val) {
